@@ -102,6 +102,9 @@ func genCluster(c *Ctx) error {
 		// restarts
 		{"n2", "tx", "tx", "restart 1", "tx", "restart 0", "tx"},
 	}
+	if !c.Flag("journal") {
+		directedSnapshotRace(c)
+	}
 	for h := 0; h < nHist+len(directed); h++ {
 		var script []string
 		if h < len(directed) {
@@ -329,4 +332,83 @@ func genCluster(c *Ctx) error {
 		}
 	}
 	return nil
+}
+
+// directedSnapshotRace: a replica joins by snapshot (fresh, or behind a retention cut) while the
+// primary, in WAL mode, commits between the snapshot's capture of its position and the transfer
+// of its pages (the snapshot is suspended at its first shared lock after the capture).
+func directedSnapshotRace(c *Ctx) {
+	r := c.Rng
+	for _, variant := range []string{"fresh", "cut", "fresh-two"} {
+		ps := pick(r, []int{512, 1024, 4096})
+		cs := c.Begin()
+		do := func(op string) string { c.Count("op." + strings.Fields(op)[0]); return cs.Do(op) }
+		p := newPager(r, ps, func(op string) string { return do("n 0 " + op) })
+		p.journalMode = "DELETE"
+		p.walBig = r.Bool()
+		states := func() {
+			for k := 0; k < 2; k++ {
+				st := do(fmt.Sprintf("n %d state", k))
+				if k == 0 {
+					if pos := posOf(st); pos != "" && !strings.HasPrefix(pos, "0:") {
+						do(fmt.Sprintf("hist %s %s", pos, p.refImageDigest()))
+					}
+				}
+				do(fmt.Sprintf("n %d ltx", k))
+				do(fmt.Sprintf("n %d raw", k))
+			}
+		}
+		observe := func() {
+			if out := do("sync"); out != "ok" {
+				c.Fail(fmt.Sprintf("snapshot race (%s): cluster did not settle: %s", variant, out))
+			}
+			states()
+		}
+		do("cluster 2")
+		do("allow 0")
+		do("up 0")
+		do("up 1")
+		do("sync")
+		if variant != "cut" {
+			do("net 1 off")
+		}
+		do("n 0 createdb")
+		first := txShape{newN: r.Range(3, 8), pages: map[int]bool{}, commit: true}
+		for pg := 1; pg <= first.newN; pg++ {
+			first.pages[pg] = true
+		}
+		p.journalTx(first, 0, 0)
+		observe()
+		p.wal = true
+		p.journalTx(txShape{newN: len(p.img), pages: map[int]bool{1: true}, commit: true}, 0, 0)
+		observe()
+		p.walTx(p.randomShape(4), false, false, false)
+		observe()
+		if variant == "cut" {
+			do("net 1 off")
+			p.walTx(p.randomShape(4), false, false, false)
+			p.walTx(p.randomShape(4), false, false, false)
+			observe()
+			do("n 0 age")
+			do("n 0 retain")
+			observe()
+		}
+		do("snap-arm 0")
+		do("net 1 on")
+		if out := do("snap-wait 0"); out != "paused" {
+			c.Fail(fmt.Sprintf("snapshot race (%s): the joining replica was not sent a snapshot", variant))
+		}
+		// the primary commits while the snapshot is in flight
+		p.walTx(p.randomShape(4), false, false, false)
+		if variant == "fresh-two" {
+			p.walTx(p.randomShape(4), false, false, false)
+		}
+		do("snap-release 0")
+		observe()
+		p.walTx(p.randomShape(4), false, false, false)
+		observe()
+		c.Count("directed.snapshot-race")
+		c.Nontrivial("snapshot-race-" + variant)
+		cs.End()
+	}
 }
